@@ -24,7 +24,7 @@ EXPLANATION = (
     "of the arguments across the Python / Cython / C boundary against the real C prototype.")
 NOT_DECIDED = ["quadrature accuracy of the golden-spiral point set (numerical)", "analytic cap areas of overlapping spheres (numerical)"]
 ASSUMPTIONS = ["documented: area of an isolated atom = 4*pi*(r+probe)^2; unselected atoms / residues without selected atoms are reported as -1"]
-FLOORS = {"C13-R1": 1, "C13-R2": 5, "C13-R3": 2, "C13-R4": 10, "C13-R5": 4}
+FLOORS = {"C13-R1": 1, "C13-R2": 20, "C13-R3": 2, "C13-R4": 50, "C13-R5": 4}
 
 SP = "mdtraj/geometry/sasa.py"
 SC = "mdtraj/geometry/src/sasa.cpp"
@@ -50,23 +50,9 @@ def check(ctx):
     for o in got:
         ctx.ob("C13-R1", o.line, o.file, o.func, o.construct, o.verdict, o.why)
 
-    # ---- R2 python side
+    # ---- R2 / R4 python side: shrake_rupley evaluated as a whole
     fn = ctx.py.func(SP, "shrake_rupley")
-    ifs = [n for n in walk_no_nested(fn) if isinstance(n, ast.If) and src(n.test) == "atom_indices is None"]
-    ok_none = ok_sel = ok_zero = False
-    if ifs:
-        tb = " ".join(src(s) for s in ifs[0].body)
-        eb = " ".join(src(s) for s in ifs[0].orelse)
-        ok_none = "out = np.zeros((xyz.shape[0], dim1), dtype=np.float32)" in tb and "np.ones(traj.n_atoms" in tb
-        ok_sel = re.search(r"out = np\.full\(\(xyz\.shape\[0\], dim1\), -1,", eb) is not None
-        ok_zero = "out[:, atom_mapping[atom_indices]] = 0" in eb
-    ctx.decide(ok_none, "C13-R2", ifs[0] if ifs else fn, SP, "shrake_rupley", "no selection: mask of ones, output zeros", "", "without atom_indices the mask / output initialisation changed")
-    ctx.decide(ok_sel, "C13-R2", ifs[0] if ifs else fn, SP, "shrake_rupley", "selection: output initialised to -1", "", "with atom_indices the output is not initialised to -1")
-    ctx.decide(ok_zero, "C13-R2", ifs[0] if ifs else fn, SP, "shrake_rupley", "selected groups start from 0", "",
-               "groups that contain a selected atom are not reset to 0 before accumulation: their area is off by -1")
-    mask = [n for n in walk_no_nested(fn) if isinstance(n, ast.Assign) and dotted(n.targets[0]) == "atom_selection_mask" and "atom_indices" in src(n.value)]
-    ok = bool(mask) and "1 if ii in atom_indices else 0" in src(mask[0].value) and "range(traj.n_atoms)" in src(mask[0].value)
-    ctx.decide(ok, "C13-R2", mask[0] if mask else fn, SP, "shrake_rupley", "mask[i] = 1 iff i in atom_indices", "", "the selection mask is not the indicator of atom_indices over all atoms")
+    _shrake_rupley_by_evaluation(ctx, cf)
     ctx.rule("C13-R5", "quadrature points are the golden-section spiral (y_i = (2i+1)/n - 1, r = sqrt(1-y^2), phi = i*pi*(3-sqrt5)); the blocker pre-filter keeps exactly the atoms with r2 < (R_i+R_j)^2")
     from .c05 import no_foreign_attribute_stores
     no_foreign_attribute_stores(ctx, "C13-R2", [SP], floor=1)
@@ -106,24 +92,6 @@ def check(ctx):
         ctx.decide(skips == ["(i==j)"], "C13-R3", C.line(nb), SC, "asa_frame", "only j == i is skipped as neighbour", "", "neighbour loop skips on %s" % skips)
 
     # ---- R4
-    s = src(fn)
-    ctx.decide("atom_mapping = np.arange(dim1, dtype=np.int32)" in s, "C13-R4", fn, SP, "shrake_rupley", "atom mode: identity mapping", "", "atom-mode mapping changed")
-    ctx.decide("[a.residue.index for a in traj.top.atoms]" in s and "dim1 = traj.n_residues" in s, "C13-R4", fn, SP, "shrake_rupley", "residue mode: atom -> residue.index, one column per residue", "", "residue-mode mapping changed")
-    ctx.decide("np.unique(atom_mapping) == np.arange(np.int64(1) + np.max(atom_mapping))" in s, "C13-R4", fn, SP, "shrake_rupley", "residue indices must be contiguous from 0", "", "contiguity check of the residue mapping changed")
-    stores = [n for n in ast.walk(ctx.py.mod(SP).tree) if isinstance(n, (ast.Assign, ast.AugAssign)) and any(
-        isinstance(t, ast.Subscript) and dotted(t.value) == "_ATOMIC_RADII" for t in (n.targets if isinstance(n, ast.Assign) else [n.target]))]
-    upd = [n for n in ast.walk(ctx.py.mod(SP).tree) if isinstance(n, ast.Call) and (call_name(n) or "").startswith("_ATOMIC_RADII.") and call_name(n).split(".")[-1] in ("update", "pop", "clear", "setdefault")]
-    ctx.decide(not stores and not upd, "C13-R4", fn, SP, "shrake_rupley", "the module-level radii table is never modified", "", "_ATOMIC_RADII is modified in place: change_radii leaks into later calls")
-    ctx.decide("modified_radii = deepcopy(_ATOMIC_RADII)" in s and "modified_radii[k] = v" in s, "C13-R4", fn, SP, "shrake_rupley", "change_radii edits a deep copy", "", "change_radii no longer works on a copy")
-    ctx.decide("radii = np.array(atom_radii, np.float32) + probe_radius" in s, "C13-R4", fn, SP, "shrake_rupley", "radii = table + probe", "", "probe radius is not added to the tabulated radii")
-    tabs = []
-    for n_ in walk_no_nested(fn):
-        if isinstance(n_, ast.Assign) and dotted(n_.targets[0]) == "atom_radii" and isinstance(n_.value, ast.ListComp):
-            e_ = n_.value.elt
-            tabs.append((n_, dotted(e_.value) if isinstance(e_, ast.Subscript) else None, src(e_.slice) if isinstance(e_, ast.Subscript) else src(e_), src(n_.value.generators[0].iter)))
-    ok = sorted(t[1] or "?" for t in tabs) == ["_ATOMIC_RADII", "modified_radii"] and all(t[2] == "atom.element.symbol" and t[3] == "traj.topology.atoms" for t in tabs)
-    ctx.decide(ok, "C13-R4", tabs[0][0] if tabs else fn, SP, "shrake_rupley", "radii are looked up by element symbol in _ATOMIC_RADII or its modified copy, for every atom of the topology", "",
-               "atom radii are taken from %s: the documented table (and the no-op change_radii path) no longer give the same radii" % [(t[1], t[2]) for t in tabs])
     d = param_default(fn, "probe_radius")
     d2 = param_default(fn, "n_sphere_points")
     ctx.decide(const(d) == 0.14 and const(d2) == 960, "C13-R4", fn, SP, "shrake_rupley", "defaults probe 0.14 nm, 960 points", "", "defaults are %s / %s" % (const(d), const(d2)))
@@ -145,12 +113,8 @@ def check(ctx):
     ok = bool(acc) and re.sub(r"\s", "", C.text(acc[0])) == "(outframe[atom_mapping[j]]+=outframebuffer[j])"
     ctx.decide(ok, "C13-R4", C.line(acc[0]) if acc else C.line(sf), SC, "sasa", "group area += atom area", "", "group accumulation is %s" % (C.text(acc[0]) if acc else None))
     # argument order across the layers
-    call = [n for n in walk_no_nested(fn) if isinstance(n, ast.Call) and call_name(n) == "_geometry._sasa"]
-    got = [src(a) for a in call[0].args] if call else []
     pw = ctx.py.func(GP, "_sasa")
     pp = params(pw)
-    ctx.decide(got == ["xyz", "radii", "int(n_sphere_points)", "atom_mapping", "atom_selection_mask", "out"] and pp == ["xyz", "atom_radii", "n_sphere_points", "atom_outmapping", "atom_selection_mask", "out"],
-               "C13-R4", call[0] if call else fn, SP, "shrake_rupley", "arguments of _geometry._sasa in the wrapper's parameter order", "", "call %s vs wrapper parameters %s" % (got, pp))
     ccall = [n for n in walk_no_nested(pw) if isinstance(n, ast.Call) and call_name(n) == "sasa"]
     cargs = [re.sub(r"\[.*\]$", "", src(a)) for a in ccall[0].args] if ccall else []
     cps = [p.get("name") for p in C.fparams(sf)]
@@ -249,3 +213,149 @@ def r5(ctx, cf):
     ok = decls.get("radius_cutoff") == "(atom_radius_i+atom_radius_j)" and decls.get("radius_cutoff2") == "(radius_cutoff*radius_cutoff)" and \
         decls.get("r2") == "dot3(r_ij,r_ij)" and decls.get("r_ij") == "(r_i-r_j)" and decls.get("atom_radius_j") == "atom_radii[j]"
     ctx.decide(ok, "C13-R5", C.line(inner), SC, "asa_frame", "r2 = |r_i - r_j|^2, cutoff = (R_i + R_j)^2", "", "pre-filter quantities are %s" % {k: decls.get(k) for k in ("radius_cutoff", "radius_cutoff2", "r2", "r_ij", "atom_radius_j")})
+
+
+def _sasa_roles(ctx, cf):
+    """position, in the signature of the pyx wrapper _sasa, of the argument that reaches each parameter of the C function sasa()"""
+    pw = ctx.py.func(GP, "_sasa")
+    pp = params(pw)
+    sf = cf.function(SC, "sasa")
+    cps = [p.get("name") for p in C.fparams(sf)]
+    ccall = [n for n in walk_no_nested(pw) if isinstance(n, ast.Call) and call_name(n) == "sasa"]
+    if len(ccall) != 1 or len(ccall[0].args) != len(cps):
+        raise AnalysisError("_sasa does not call sasa() once with %d arguments" % len(cps))
+    roles = {}
+    for cp, a_ in zip(cps, ccall[0].args):
+        names = [x.id for x in ast.walk(a_) if isinstance(x, ast.Name) and x.id in pp]
+        if len(set(names)) == 1 and not (isinstance(a_, ast.Attribute) or ".shape" in src(a_)):
+            roles[cp] = pp.index(names[0])
+    need = ("xyzlist", "atom_radii", "n_sphere_points", "atom_mapping", "atom_selection_mask", "out")
+    if any(r_ not in roles for r_ in need) or len({roles[r_] for r_ in need}) != 6:
+        raise AnalysisError("the parameters of _sasa that reach %s of sasa() were not found (%s)" % (need, roles))
+    return {r_: roles[r_] for r_ in need}, pp
+
+
+def _shrake_rupley_by_evaluation(ctx, cf):
+    """shrake_rupley evaluated (sa/tensym.py) on a model trajectory of 5 atoms in 3 residues, 2 frames, for atom / residue mode, with and
+    without a selection, with and without change_radii.  The kernel is summarised by what the C side is shown to do (C13-R2..R4 on sasa.cpp):
+    out[f, mapping[i]] += area(f, i) for every atom i whose mask entry is 1.  Decided on the values: what the kernel receives in each role
+    (coordinates, table radius + probe per atom, identity / residue-index mapping, indicator mask of the selection, an output pre-set to 0 for
+    groups with a selected atom and -1 elsewhere) and what is returned."""
+    from ..tensym import TenSym, Ten, Obj, Raised, ShapeError
+    from ..pysym import Unsupported as PUnsupported
+    from ..poly import Poly, Rat
+    fn = ctx.py.func(SP, "shrake_rupley")
+    q = "shrake_rupley"
+    try:
+        roles, pp = _sasa_roles(ctx, cf)
+    except AnalysisError as e:
+        ctx.undecided("C13-R4", fn, SP, q, "roles of the parameters of _geometry._sasa", str(e))
+        return
+    elems = ["C", "N", "C", "O", "H"]
+    resid = [0, 0, 1, 1, 2]
+    F_, N_, G_ = 2, 5, 3
+    var = lambda n_: Rat(Poly.var(n_))      # noqa: E731
+
+    def run(mode, ai, cr, gm=False, resid_=resid):
+        residues = [Obj(index=k) for k in sorted(set(resid_))]
+        by = {r_.index: r_ for r_ in residues}
+        atoms = [Obj(index=i, element=Obj(symbol=e, radius=var("vdw_radius_attribute_of_" + e)), residue=by[resid_[i]]) for i, e in enumerate(elems)]
+        top = Obj(atoms=atoms, residues=residues)
+        traj = Obj(xyz=Ten.sym("x", (F_, N_, 3)), n_atoms=N_, n_residues=len(residues), top=top, topology=top)
+        table = {e: var("R_" + e) for e in ("C", "N", "O", "H", "S")}
+        rec = {"table": table, "table0": dict(table)}
+
+        def kernel(ev, call):
+            args = [ev.ex(a_) for a_ in call.args]
+            for k in call.keywords:
+                if k.arg in pp:
+                    while len(args) <= pp.index(k.arg):
+                        args.append(None)
+                    args[pp.index(k.arg)] = ev.ex(k.value)
+            got = {r_: (args[p_] if p_ < len(args) else None) for r_, p_ in roles.items()}
+            rec["n_calls"] = rec.get("n_calls", 0) + 1
+            rec["at_call"] = {r_: (Ten(v.shape, list(v.data)) if isinstance(v, Ten) else v) for r_, v in got.items()}
+            out, mp, mk = got["out"], got["atom_mapping"], got["atom_selection_mask"]
+            if not (isinstance(out, Ten) and out.ndim == 2 and isinstance(mp, Ten) and isinstance(mk, Ten) and mp.shape == (N_,) and mk.shape == (N_,)):
+                raise PUnsupported("the kernel does not receive arrays of the expected ranks")
+            for f in range(out.shape[0]):
+                for i in range(N_):
+                    g, sel = mp.data[i].const_value(), mk.data[i].const_value()
+                    if g is None or sel is None or not (0 <= int(g) < out.shape[1]):
+                        raise PUnsupported("mapping / mask entries are not concrete group indices")
+                    if sel != 0:
+                        out.data[f * out.shape[1] + int(g)] = out.data[f * out.shape[1] + int(g)] + var("area[%d,%d]" % (f, i))
+            rec["out_obj"] = out
+        ts = TenSym({"_ATOMIC_RADII": table}, models={"_geometry._sasa": kernel, "ensure_type": lambda ev, c: ev.ex(c.args[0]),
+                                                     "deepcopy": lambda ev, c: dict(ev.ex(c.args[0])), "copy.deepcopy": lambda ev, c: dict(ev.ex(c.args[0]))})
+        r = ts.run_fn(fn, traj=traj, probe_radius=var("probe"), n_sphere_points=960, mode=mode, change_radii=cr, get_mapping=gm, atom_indices=ai)
+        return ts, r, rec, traj
+    n_cfg = 0
+    for mode in ("atom", "residue"):
+        for ai in (None, [1, 3], []):
+            for cr in (None, {"C": var("newC")}):
+                if ai == [] and cr:
+                    continue
+                cfg_ = "mode=%s, atom_indices=%s, change_radii=%s" % (mode, ai, "{'C': newC}" if cr else None)
+                try:
+                    ts, r, rec, traj = run(mode, ai, dict(cr) if cr else None)
+                except PUnsupported as e:
+                    ctx.undecided("C13-R4", fn, SP, q, cfg_, "not evaluable: %s" % e)
+                    ctx.undecided("C13-R2", fn, SP, q, cfg_, "not evaluable: %s" % e)
+                    continue
+                n_cfg += 1
+                if rec.get("n_calls") != 1:
+                    ctx.violated("C13-R4", fn, SP, q, cfg_ + ": one kernel call", "_geometry._sasa is called %s times" % rec.get("n_calls", 0))
+                    continue
+                at = rec["at_call"]
+                mapping = list(range(N_)) if mode == "atom" else list(resid)
+                ngrp = N_ if mode == "atom" else G_
+                sel = [1] * N_ if ai is None else [int(i in ai) for i in range(N_)]
+
+                def ints(t):
+                    v = [x.const_value() for x in t.data] if isinstance(t, Ten) else None
+                    return None if v is None or any(c is None for c in v) else [int(c) for c in v]
+                ctx.decide(isinstance(at["xyzlist"], Ten) and ts.first_difference(at["xyzlist"], traj.xyz) is None, "C13-R4", fn, SP, q, cfg_ + ": the kernel works on traj.xyz", "", "the coordinates handed to the kernel are not traj.xyz")
+                wr = [(cr["C"] if (cr and elems[i] == "C") else var("R_" + elems[i])) + var("probe") for i in range(N_)]
+                ok = isinstance(at["atom_radii"], Ten) and at["atom_radii"].shape == (N_,) and all(ts.equal(x, y) for x, y in zip(at["atom_radii"].data, wr))
+                ctx.decide(ok, "C13-R4", fn, SP, q, cfg_ + ": radius of atom i = table[element of i] (changed entries replaced) + probe", "",
+                           "the radii handed to the kernel are %s" % (at["atom_radii"].data if isinstance(at["atom_radii"], Ten) else at["atom_radii"],))
+                npts = at["n_sphere_points"]
+                ctx.decide((npts.const_value() if hasattr(npts, "const_value") else npts) == 960, "C13-R4", fn, SP, q, cfg_ + ": n_sphere_points passed on", "", "the kernel receives n_sphere_points=%r" % (npts,))
+                ctx.decide(ints(at["atom_mapping"]) == mapping, "C13-R4", fn, SP, q, cfg_ + ": mapping = %s" % ("identity" if mode == "atom" else "atom -> index of its residue"), "",
+                           "the mapping handed to the kernel is %s, expected %s" % (ints(at["atom_mapping"]), mapping))
+                ctx.decide(ints(at["atom_selection_mask"]) == sel, "C13-R2", fn, SP, q, cfg_ + ": mask[i] = 1 iff atom i is selected", "",
+                           "the selection mask is %s, the indicator of the selection is %s" % (ints(at["atom_selection_mask"]), sel))
+                init = [0 if any(sel[i] and mapping[i] == g for i in range(N_)) else -1 for g in range(ngrp)]
+                o0 = at["out"]
+                ok = isinstance(o0, Ten) and o0.shape == (F_, ngrp) and ints(o0) == init * F_
+                ctx.decide(ok, "C13-R2", fn, SP, q, cfg_ + ": output starts at 0 for groups with a selected atom, -1 elsewhere", "",
+                           "the output handed to the kernel is %s of shape %s; expected rows %s (a group that starts at -1 and receives areas is off by one, a group that starts at 0 and "
+                           "receives nothing is reported as buried instead of not selected)" % (ints(o0), getattr(o0, "shape", None), init))
+                want = Ten((F_, ngrp), [sum((var("area[%d,%d]" % (f, i)) for i in range(N_) if sel[i] and mapping[i] == g), Rat(Poly.const(init[g]))) for f in range(F_) for g in range(ngrp)])
+                res = r
+                ok = isinstance(res, Ten) and res.shape == want.shape and ts.first_difference(res, want) is None
+                ctx.decide(ok, "C13-R4", fn, SP, q, cfg_ + ": returns the array the kernel filled (group sums of the selected atoms, -1 for groups without one)", "",
+                           "the value returned %s" % ("is not the (n_frames, n_groups) output" if not (isinstance(res, Ten) and res.shape == want.shape) else ts.first_difference(res, want)))
+                ctx.decide(rec["table"] == rec["table0"], "C13-R4", fn, SP, q, cfg_ + ": the module-level radii table is left as it was", "",
+                           "_ATOMIC_RADII is modified in place (%s): change_radii leaks into later calls" % sorted(k for k in rec["table"] if rec["table"].get(k) != rec["table0"].get(k)))
+    # get_mapping=True returns (areas, mapping)
+    try:
+        ts, r, rec, traj = run("residue", None, None, gm=True)
+        ok = isinstance(r, (tuple, list)) and len(r) == 2 and r[0] is rec.get("out_obj") and isinstance(r[1], Ten) and [x.const_value() for x in r[1].data] == resid
+        ctx.decide(ok, "C13-R4", fn, SP, q, "get_mapping=True returns (areas, atom -> group mapping)", "", "with get_mapping=True the return value is not (areas, mapping)")
+    except PUnsupported as e:
+        ctx.undecided("C13-R4", fn, SP, q, "get_mapping=True", "not evaluable: %s" % e)
+    # residue indices that are not 0..n-1 are refused; an unknown mode is refused
+    for what, kw_ in (("residue indices with a gap are refused", dict(mode="residue", resid_=[0, 0, 2, 2, 3])), ("an unknown mode is refused", dict(mode="group"))):
+        try:
+            run(kw_["mode"], None, None, resid_=kw_.get("resid_", resid))
+            ctx.violated("C13-R4", fn, SP, q, what, "no error is raised")
+        except Raised as e:
+            ctx.holds("C13-R4", fn, SP, q, what, "raises %s" % e.exc[:40])
+        except ShapeError as e:
+            ctx.holds("C13-R4", fn, SP, q, what, "numpy raises: %s" % e)      # unique(mapping) == arange(max + 1) with arrays of different lengths
+        except PUnsupported as e:
+            ctx.undecided("C13-R4", fn, SP, q, what, "not evaluable: %s" % e)
+    if n_cfg < 10:
+        ctx.undecided("C13-R4", fn, SP, q, "configurations", "only %d of 10 configurations evaluated" % n_cfg)
